@@ -16,7 +16,7 @@ const maxInlineDepth = 10
 
 func isSpecHelper(f *types.Func) bool {
 	switch f.Name() {
-	case "old", "forallInt", "existsInt", "forallReal", "existsReal", "implies", "assert", "assume", "iff", "fresh", "memEq", "lemmaUse", "wfd", "bnd", "sameSlice", "iterStart", "allocd", "ghostRank":
+	case "old", "forallInt", "existsInt", "forallReal", "existsReal", "implies", "assert", "assume", "iff", "fresh", "memEq", "lemmaUse", "wfd", "bnd", "sameSlice", "iterStart", "allocd", "ghostRank", "rangeIndex", "inPlace":
 		return f.Pkg() != nil && strings.Contains(f.Pkg().Path(), "tdewolff/canvas")
 	}
 	return false
@@ -1212,6 +1212,24 @@ func (x *Exec) callSpecHelper(s *State, fn *types.Func, call *ast.CallExpr) []*T
 		v := x.eval(tmp, call.Args[1])
 		x.dry--
 		return []*Term{v}
+	case "inPlace":
+		// inPlace(a, b): slice a lives in the storage of slice b (same block, same start, within b's capacity)
+		a := x.eval(s, call.Args[0])
+		b := x.eval(s, call.Args[1])
+		return []*Term{And(Eq(Field(a, 0), Field(b, 0)), Eq(Field(a, 1), Field(b, 1)), Cmp("<=", Field(a, 3), Field(b, 3)))}
+	case "rangeIndex":
+		ordT := x.eval(s, call.Args[0])
+		if ordT.rat != nil {
+			ord := int(ordT.rat.Num().Int64())
+			for i := len(x.frames) - 1; i >= 0; i-- {
+				if o, ok := x.frames[i].rangeIdx[ord]; ok {
+					if v, ok := s.env[o]; ok {
+						return []*Term{v}
+					}
+				}
+			}
+		}
+		return []*Term{x.freshVar("rangeidx", SInt)}
 	case "ghostRank":
 		// an arbitrary but fixed integer attached to a reference (well-founded orders on pointer structures)
 		v := x.eval(s, call.Args[0])
